@@ -150,6 +150,43 @@ def _keyparam_worker(args):
     return acc.result()
 
 
+def _ecdsa_worker(args):
+    part, parts = args
+    acc = core.Acc()
+    from cryptodatahub.common.algorithm import Hash
+    from cryptoparser.ssh.key import SshHostKeyECDSA
+    doc = classes.documented_errors()
+    for i, (name, ident, blob) in enumerate(c07.ecdsa_wire_forms()):
+        if i % parts != part:
+            continue
+        acc.counters['transitions'] = acc.counters.get('transitions', 0) + 1
+        w = {'kind': 'ecdsa', 'algorithm': name, 'curve': ident, 'index': i}
+        try:
+            o = SshHostKeyECDSA.parse_exact_size(blob)
+        except doc as e:
+            acc.violation('ecdsa:rejected:%s' % type(e).__name__, 'RFC 5656 blob %s / %s rejected: %s'
+                          % (name, ident, str(e)[:60]), w)
+            continue
+        acc.state(core.h64('ecdsa', name, ident, i))
+        exp = ref.fingerprints(blob)
+        fam = 'named' if ident in name else 'oid_or_mismatch'
+        if bytes(o.key_bytes) != blob:
+            acc.violation('ecdsa:key_bytes:%s' % fam, 'key_bytes of %s / %s is not the RFC 4253 blob' % (name, ident), w)
+        fp = o.fingerprints
+        for h, hn in ((Hash.SHA2_256, 'SHA256'), (Hash.SHA1, 'SHA1'), (Hash.MD5, 'MD5')):
+            if fp.get(h) != exp[hn]:
+                acc.violation('ecdsa:fingerprint:%s:%s' % (fam, hn), '%s fingerprint of %s / %s is %s, digest of the blob '
+                              'gives %s' % (hn, name, ident, fp.get(h), exp[hn]), w)
+                break
+        kh = o.host_key_asdict().get('known_hosts')
+        if kh != exp['known_hosts']:
+            acc.violation('ecdsa:known_hosts:%s' % fam, 'known_hosts of %s / %s is not the base64 of the blob'
+                          % (name, ident), w)
+    if part == 0:
+        acc.sample({'kind': 'ecdsa', 'forms': len(c07.ecdsa_wire_forms())}, 1)
+    return acc.result()
+
+
 def _wire_worker(args):
     """For every accepted wire form b of a key / certificate (seeds and their accepted single-byte substitutions,
     plus reference encodings with non-minimal integers): the fingerprints must be the digests of b itself."""
@@ -236,6 +273,7 @@ def run(ctx):
     ctx.pmap(_key_worker, kitems)
     ctx.pmap(_keyparam_worker, [(p, 16, 1100 if ctx.quick else 4097) for p in range(16)])
     ctx.pmap(_wire_worker, [(classes.qualname(c),) for c in key_classes()])
+    ctx.pmap(_ecdsa_worker, [(p, 8) for p in range(8)])
     ctx.pmap(_cert_variant_worker, [(classes.qualname(c),) for c in key_classes() if c.__name__.startswith('SshHostCertificate')])
     ctx.assumptions += ['HASSH = md5(kex;enc;mac;comp) over the name-lists as they appear on the wire '
                         '(client: client-to-server lists, server: server-to-client lists)',
@@ -244,7 +282,8 @@ def run(ctx):
     return ctx.finish(rule='KEXINIT wire forms with every name-list of length <= 3 (known, unknown, prefix-of-known, '
                            'duplicated names, empty) in each list HASSH reads and every pair of such lists (length <= '
                            '%d); every key and certificate within %d deviations of the seeds; RSA keys over boundary bit '
-                           'lengths' % (1 if ctx.quick else 2, 1 if ctx.quick else 2))
+                           'lengths; ECDSA blobs for every algorithm name x every curve identifier (named and OID) x 2 '
+                           'points' % (1 if ctx.quick else 2, 1 if ctx.quick else 2))
 
 
 def replay(ctx, w):
@@ -256,6 +295,10 @@ def replay(ctx, w):
         for side, attr_name in (('client', 'hassh'), ('server', 'hassh_server')):
             if getattr(o, attr_name) != ref.hassh_from_kexinit(wire, server=(side == 'server')):
                 acc.violation('hassh:%s:differs' % side, 'differs', w)
+    elif w['kind'] == 'ecdsa':
+        res = _ecdsa_worker((0, 1))
+        vs = [v for v in res[1] if v['witness'].get('index') == w.get('index')]
+        return vs[0] if vs else None
     elif w['kind'] == 'certvariant':
         res = _cert_variant_worker((w['cls'],))
         vs = [v for v in res[1] if v['witness'].get('variant') == w.get('variant')] or res[1]
